@@ -240,7 +240,25 @@ def run(case, env):
     with live.lock_write():
         check_branch(live, g, tip, tags, d + "/o", other_tip, rot)
         lh2 = gm.lefthand(g, tip2)
-        live.set_last_revision_info(len(lh2), bz.enc(tip2))
+        # hooks that read the numbering while the tip is being changed (as
+        # plugins do) must not leave caches of the old tip behind
+        seen = []
+
+        def reading_hook(params):
+            b = params.branch
+            seen.append(len(b.get_revision_id_to_revno_map()))
+            b.revision_id_to_dotted_revno(b.last_revision())
+            list(b.iter_merge_sorted_revisions())
+            b.get_rev_id(1)
+        names = ["pre_change_branch_tip", "post_change_branch_tip"]
+        pick = names if case["rot"] % 3 == 0 else names[:case["rot"] % 3 - 1]
+        for hn in pick:
+            _branch.Branch.hooks.install_named_hook(hn, reading_hook, "vf-c22")
+        try:
+            live.set_last_revision_info(len(lh2), bz.enc(tip2))
+        finally:
+            for hn in pick:
+                _branch.Branch.hooks.uninstall_named_hook(hn, "vf-c22")
         check_branch(live, g, tip2, tags, d + "/o", other_tip, rot + 1)
     # 2. a fresh object under a read lock
     fresh = _branch.Branch.open(d + "/b")
